@@ -120,9 +120,22 @@ def filler_offset(prog, f, seen=None):
     return off
 
 
-def _array_extent(prog, f, expr):
-    """Number of elements of the array an argument expression denotes, or None (pointer/parameter)."""
+def _array_extent(prog, f, expr, depth=0):
+    """Number of elements of the array an argument expression denotes, or None (pointer/parameter).  A local pointer with a single
+    definition (`echs_instant_t *const cch = strm->cch`) denotes what it was defined from."""
     e = strip_casts(f.cfg.resolve(expr))
+    if e.get("k") == "ref" and e.get("dk") in ("local", "slocal") and depth < 3:
+        own = [l.get("extent") for l in f.locals if l["n"] == e["n"]]
+        if own and own[0] is None:
+            from ..facts import writes
+            srcs = []
+            for b_, i_, x_, line_ in f.cfg.all_elems():
+                if isinstance(x_, dict):
+                    for l_, kind, nn in writes(x_):
+                        if lv(l_) == e["n"]:
+                            srcs.append(nn.get("init") if kind == "decl" else (nn.get("r") if nn.get("k") == "bin" and nn["op"] == "=" else None))
+            if len(srcs) == 1 and srcs[0] is not None:
+                return _array_extent(prog, f, srcs[0], depth + 1)
     if e.get("k") == "mem":
         rec = e.get("rec")
         if rec:
